@@ -103,6 +103,28 @@ def scenarios(tier):
                     features=dict({'mode': mode, 'role': role, 'history': name, 'repetitions': reps, 'conn_pool': True},
                                   **({'_sockbuf': 4096} if lingers else {})),
                     setup=_setup))
+    # a plugin that turns the request down AFTER the upstream connection has been made (handle_client_request
+    # rejects / drops), and one that does so before: with and without the connection pool, whatever was acquired
+    # for the request is given back
+    from .. import plugins as _pl
+    req = b'GET http://adv.test/a HTTP/1.1\r\nHost: adv.test\r\n\r\n'
+    og = {('10.0.0.9', 80): lambda: HttpOrigin([[c05.R_A]])}
+    for mode in ('local', 'remote'):
+        for pool in (False, True):
+            for hook, act in (('handle_client_request', ('reject', (403, b'no'))), ('handle_client_request', ('drop', None)),
+                              ('before_upstream_connection', ('reject', (403, b'no')))):
+                klass = _pl.recorder('gate', {hook: act})
+                for reps in (1, 3):
+                    script = [('send', req), ('wait_idle',), ('close',)]
+                    clients = [dict(script=script, start_turn=(0 if i == 0 else 'idle')) for i in range(reps)]
+                    out.append(Scenario(
+                        '%s/%splugin-%s-%s/x%d' % (mode, 'pool/' if pool else '', act[0], hook, reps),
+                        ['--threadless'] + (['--enable-conn-pool'] if pool else []), flags_opts={'plugins': [klass]},
+                        mode=mode, clients=clients, origins=og, dns={'adv.test': '10.0.0.9'}, kinds='F' if reps == 1 else '',
+                        horizon=900,
+                        features=dict({'mode': mode, 'role': 'forward', 'history': 'plugin-%s-in-%s' % (act[0], hook),
+                                       'repetitions': reps}, **({'conn_pool': True} if pool else {})),
+                        setup=_setup))
     # the shipped ProxyPoolPlugin opens its own upstream connection (to a pool endpoint) from before_upstream_connection
     for mode in ('local', 'remote'):
         netmc.install()
